@@ -95,6 +95,13 @@ class ShardCtx:
             tb = traceback.format_exc()
             if len(self.harness_errors) < 3:
                 self.harness_errors.append(tb + "\ncase=" + canon(case)[:4000])
+                try:
+                    hdir = os.path.join(OUT_DIR, 'harness-errors')
+                    os.makedirs(hdir, exist_ok=True)
+                    with open(os.path.join(hdir, f'{self.module.PROPERTY}-{digest(case)}.json'), 'w') as fh:
+                        json.dump({'case': case, 'traceback': tb}, fh, indent=1, default=repr)
+                except Exception:
+                    pass
             raise HarnessError(tb)
         self.record(case, res)
         return res
